@@ -257,6 +257,74 @@ theorem convert_idempotent (p : Params) (comps : List Comp) (hminor : ∀ c ∈ 
   · simp at h
   · exact h
 
+/-! ## the text of the input: unit spellings, `check_units`, the string tests of `convert_units` -/
+open Txt in
+/-- every documented spelling of a unit is accepted by both copies of `check_units` and denotes the same unit -/
+theorem documented_spellings_ok : ∀ p ∈ documentedSpellings, ∀ v : Bool,
+    (checkUnits v p.1.toList false false []).bind Unit.ofChars = some p.2 := by decide +kernel
+
+open Txt in
+/-- the 27 canonical names are fixed points of the normalisation -/
+theorem canonical_fixed : ∀ u ∈ Unit.all, ∀ v : Bool, normalise v u.str.toList = u.str.toList := by decide +kernel
+
+open Txt in
+/-- the `units[]` table is exactly the 27 structured units; decoding inverts printing -/
+theorem unit_table_complete : (∀ s ∈ unitTable, (Unit.ofChars s.toList).isSome) ∧ (∀ u ∈ Unit.all, u.str ∈ unitTable) ∧
+    (∀ u ∈ Unit.all, Unit.ofChars u.str.toList = some u) := by decide +kernel
+
+open Txt in
+/-- the `strstr` / first-character tests `convert_units` makes on the canonical names are the structural predicates of the model -/
+theorem string_tests_agree : ∀ u ∈ Unit.all,
+    sPreFactor u.str.toList = u.preFactor ∧ sGramPerSolution u.str.toList = u.gramPerSolution ∧
+    sMolPerSolution u.str.toList = u.molPerSolution ∧ sIsGram u.str.toList = u.isGram ∧
+    sPerL u.str.toList = (u.den == .perL) ∧ sPerSolution u.str.toList = (u.den == .perKgs || u.den == .perL) := by
+  decide +kernel
+
+open Txt in
+/-- the default-units fix-up of the model is `check_units` with the compatibility check, on all 27 × 27 × 2 inputs -/
+theorem fixup_is_check_units : ∀ own ∈ Unit.all, ∀ dflt ∈ Unit.all, ∀ alk : Bool,
+    checkUnits false own.str.toList alk true dflt.str.toList = (fixupUnit dflt (some own) alk).map (·.str.toList) := by
+  decide +kernel
+
+/-- **SOLUTION_SPREAD rows versus SOLUTION blocks.** When every column string parses (and no heading starts with a
+lower-case letter), the components read from a SPREAD row are the components read from the SOLUTION block whose lines are
+`heading datum unit-cell`. -/
+open Txt in
+theorem spread_row_eq_block (cells : List (List Char × List Char × List Char))
+    (hup : ∀ c ∈ cells, isLowerFirst ((tokens (spreadCell c.1 c.2.1 c.2.2)).headD []) = false)
+    (hok : ∀ c ∈ cells, (readCompLine (spreadCell c.1 c.2.1 c.2.2)).isSome) :
+    blockComps (cells.map fun c => spreadCell c.1 c.2.1 c.2.2) = some (rowComps cells) := by
+  induction cells with
+  | nil => rfl
+  | cons c cs ih =>
+    have h1 := hup c (by simp)
+    have h2 := hok c (by simp)
+    have ih' := ih (fun d hd => hup d (by simp [hd])) (fun d hd => hok d (by simp [hd]))
+    unfold blockComps at ih' ⊢
+    unfold rowComps
+    obtain ⟨v, hv⟩ := Option.isSome_iff_exists.mp h2
+    simp only [List.map_cons, List.mapM_cons, List.filterMap_cons, h1, hv, Bool.false_eq_true, if_false]
+    rw [ih']
+    rfl
+
+open Txt in
+example : readCompLine "  S(6)  20 mg/L as SO4".toList =
+    some ⟨"S(6)".toList, 20, some "mg/l".toList, "SO4".toList, 0, []⟩ := by decide +kernel
+open Txt in
+example : readCompLine (spreadCell "Alkalinity".toList "50.5".toList "mg/kg water as CaCO3".toList) =
+    some ⟨"Alkalinity".toList, 101/2, some "mg/kgw".toList, "CaCO3".toList, 0, []⟩ := by decide +kernel
+open Txt in
+example : readCompLine "C(+4) 2.5e-3 Mol/kgw gfw 61.0 pe".toList =
+    some ⟨"C(4)".toList, 1/400, some "Mol/kgw".toList, [], 61, ["pe".toList]⟩ := by decide +kernel
+open Txt in
+example : readCompLine "Fe(2) Fe(3) 1 ug/l".toList = some ⟨"Fe(2) Fe(3)".toList, 1, some "ug/l".toList, [], 0, []⟩ := by decide +kernel
+open Txt in
+example : readCompLine "Na".toList = none ∧ readCompLine "Na x".toList = none ∧ readCompLine "na 1".toList = none := by decide +kernel
+/-- the weight of `Ca0.5(CO3)0.5` from the element table, through the formula parser -/
+open Txt in
+example : gfwOfFormula (fun s => if s = "Ca" then some (4008/100) else if s = "C" then some (120111/10000) else
+    if s = "O" then some 16 else none) "Ca0.5(CO3)0.5" = some (5004555/100000) := by decide +kernel
+
 end PhreeqcVerif.Units
 
 namespace PhreeqcVerif.MixAlg
